@@ -536,7 +536,10 @@ def select(V, pid, cases, rnd):
             rest.setdefault(c['model'], []).append(c)
     skipped = 0
     for m, lst in sorted(rest.items()):
+        # small documents first (accept/reject boundaries live there), random
+        # within a size class
         rnd.shuffle(lst)
+        lst.sort(key=docsize)
         keep += lst[:cap]
         skipped += max(0, len(lst) - cap)
     V.notes['replay_selection'] = (
@@ -584,6 +587,14 @@ def replay_one(pid, path):
     with open(path) as f:
         rec = json.load(f)
     c = rec['case']['case']
+    if rec['case'].get('pid') == 'C10D':
+        import dumpcheck
+        write_models(dumpcheck.live_dimplicit())
+        o, obj, b = dumpcheck.observe_dump(c)
+        print('sweeten calls observed: %s; specification: %s' % (
+            o.get('swelog'), c['dlog']))
+        return 1 if [[e[0], e[1]] for e in o.get('swelog', [])] != \
+            [[e[0], e[1]] for e in (c['dlog'] or [])] else 0
     if rec['case'].get('pid') == 'C17S':
         import dumpcheck
         write_models(dumpcheck.live_dimplicit())
@@ -804,6 +815,42 @@ def rel_c17_strong(c):
 
 
 RELS['C17S'] = rel_c17_strong
+
+
+def c10_sweeten(V, tier):
+    """The dumping half of C10: sweeten calls of the real Representer against
+    the history variable of RoundTrip, for the families with hooks."""
+    import dumpcheck
+    stats, cases = tlc_cases(
+        'MC_RoundTrip_q.cfg' if tier == 'quick' else 'MC_RoundTrip_t.cfg',
+        module='MC_RoundTrip', extra_files=('RoundTrip.tla',),
+        dimplicit=dumpcheck.live_dimplicit())
+    add_stats(V, stats)
+    cases = [c for c in cases if c['model'] in
+             ('hooks', 'mixin', 'multi', 'inverse', 'defaults', 'parsed',
+              'dashed_sav') and isinstance(c['oh'], list)]
+    n = 0
+    for c in cases:
+        o, obj, b = dumpcheck.observe_dump(c)
+        if 'dump_exc' in o:
+            continue
+        n += 1
+        sl = [[e[0], e[1]] for e in (c['dlog'] if isinstance(c['dlog'], list)
+                                     else [])]
+        ol = [[e[0], e[1]] for e in o['swelog']]
+        what = 'dumps(%s)' % json.dumps(c['value'])[:200]
+        if sl != ol:
+            V.violation({'pid': 'C10D', 'case': c},
+                        '%s: sweeten calls %s, specification %s' % (
+                            what, ol, sl))
+        for e in o['swelog']:
+            if e[1] != e[2]:
+                V.violation({'pid': 'C10D', 'case': c},
+                            '%s: sweeten of %s called for %s' % (
+                                what, e[1], e[2]))
+    V.replayed += n
+    V.evaluations += n
+    V.notes['sweeten_behaviours'] = n
 
 
 def c17_strong(V, tier):
